@@ -26,3 +26,15 @@ def register(claim, na):
         "symbolic execution of the real circuit code on generic sympy gates/states + z3 QF_NRA identity checking against an embedding oracle",
         "DESIGN.md §1 E1, §2 C01",
     )
+    claim(
+        "C07", "model_checking",
+        "Inductive-step symbolic model checking of the gate modifiers: for every gate g in the closure of the symbolic bases (all parametric "
+        "built-ins with all parameters symbolic, a generic custom gate, a parametric custom gate) under dagger/controlled chains, and every "
+        "modifier m in {dagger, controlled(1), controlled(2)}, z3 decides for all parameter values that m(g).matrix is the adjoint / the "
+        "identity-block-then-U matrix of g's own matrix, that num_qubits and params are as implied, and that replace_params commutes with m. "
+        "power/exp (which refuse free symbols) are covered as ground instances on constant gates with numeric comparison.",
+        "Trusted: sympy, translator (Fourier cross-check + replay), z3. Ground power/exp instances carry no free variable and are not solver coverage; "
+        "instances whose sympy matrix function does not finish are reported inconclusive. Known finding F2 (dagger of a fractional power of a self-adjoint-flagged gate).",
+        "symbolic execution of modifier methods on sympy symbols + z3 QF_NRA per entry (inductive step per modifier); ground numeric compare for power/exp",
+        "DESIGN.md §1 E1, §2 C07",
+    )
